@@ -1138,11 +1138,12 @@ TRACE_CONTRACTS = [
     dict(id="Executor.resolve_field", target="py_gql.execution.executor:Executor.resolve_field", props=["C16", "C10", "C04"],
          default_props=["C16"], clause_props={"one-error-per-failed-field": ["C10", "C04"]},
          config=Config(events=FIELD_EVENTS, nothrow=FIELD_NOTHROW + [r"unwrap_value$"],
-                       raises=[(r"self\.complete_value$", [RuntimeError, TypeError])],
+                       raises=[(r"self\.complete_value$", [RuntimeError, TypeError, __import__("py_gql.exc", fromlist=["ResolverError"]).ResolverError])],
                        callbacks=[(r"runtime\.map_value$", map_value_contract)]),
          clauses=FIELD_CLAUSES,
          assumes=["Runtime.map_value effect contract (contracts/traces.py map_value_contract) for every runtime",
-                  "complete_value raises no ResolverError / CoercionError (type resolvers and scalar serialisers do not raise the library's resolver error)",
+                  "complete_value raises RuntimeError / TypeError / ResolverError only (a generator, type resolver or scalar serialiser may raise the library's resolver error "
+                  "while the value is consumed: covered since fix 4cc8987)",
                   "Runtime.unwrap_value does not raise"]),
     dict(id="Executor._handle_non_nullable_value", target="py_gql.execution.executor:Executor._handle_non_nullable_value", props=["C04", "C10"],
          config=Config(events=[(r"self\.add_error$", "add_error"),
